@@ -63,6 +63,13 @@ def exec_raster(c):
     from swcgeom.images.io import read_imgs
     P, pos, rad = c["P"], c["pos"], c["rad"]
     n = len(P)
+    if lib.vid(c) % 3 == 1 and n > 2:
+        # the same tree under another numbering (root stays 0, the other nodes in reverse order: children precede their parents)
+        new = [0] + [n - i for i in range(1, n)]
+        old = sorted(range(n), key=lambda i: new[i])
+        P = [(-1 if P[o] == -1 else new[P[o]]) for o in old]
+        pos = [pos[o] for o in old]
+        rad = [rad[o] for o in old]
     t = Tree(n, id=np.arange(n, dtype=np.int32), pid=np.array(P, dtype=np.int32), type=np.array([1] + [3] * (n - 1), dtype=np.int32),
              x=np.array([p[0] for p in pos], dtype=np.float32), y=np.array([p[1] for p in pos], dtype=np.float32),
              z=np.array([p[2] for p in pos], dtype=np.float32), r=np.array(rad, dtype=np.float32))
